@@ -557,7 +557,7 @@ func c15Factory(c *Ctx, r *Report) {
 				perConn := false
 				for _, b2 := range fn.Blocks {
 					for _, in2 := range b2.Instrs {
-						if ac, ok := in2.(ssa.CallInstruction); ok && ac.Common().IsInvoke() && ac.Common().Method.Name() == "Accept" {
+						if ac, ok := in2.(ssa.CallInstruction); ok && acceptsConnection(ac, 2) {
 							if b2.Dominates(call.Block()) && blockReaches(call.Block(), b2) {
 								perConn = true
 							}
@@ -987,4 +987,42 @@ func init() {
 		r.controls["C15/R15.1-withholds-complete-request"] = run("StepWithholds")["R15.1:withholds-complete-request"]
 		r.controls["C15/R15.2-leftover-bytes"] = run("StepLeftover")["R15.2:leftover-bytes"] || run("StepLeftover")["R15.1:next-count"]
 	}
+}
+
+// acceptsConnection: the call is Accept on a listener interface, or a call of a module function
+// that (to the given depth) makes such a call on every path is not required — it is enough that
+// it is the only way it obtains a connection: a forwarder method.
+func acceptsConnection(ci ssa.CallInstruction, depth int) bool {
+	cm := ci.Common()
+	if cm.IsInvoke() {
+		return cm.Method.Name() == "Accept"
+	}
+	sc := cm.StaticCallee()
+	if sc == nil || sc.Blocks == nil || depth == 0 || ci.Parent() == nil || sc.Pkg != ci.Parent().Pkg && (ci.Parent().Parent() == nil || sc.Pkg != ci.Parent().Parent().Pkg) {
+		return false
+	}
+	// the callee returns a net.Conn-like value (an interface with Read, Write and Close)
+	res := sc.Signature.Results()
+	if res.Len() == 0 {
+		return false
+	}
+	it, ok := res.At(0).Type().Underlying().(*types.Interface)
+	if !ok {
+		return false
+	}
+	has := map[string]bool{}
+	for i := 0; i < it.NumMethods(); i++ {
+		has[it.Method(i).Name()] = true
+	}
+	if !has["Read"] || !has["Write"] || !has["Close"] {
+		return false
+	}
+	for _, b := range sc.Blocks {
+		for _, in := range b.Instrs {
+			if c2, ok := in.(ssa.CallInstruction); ok && acceptsConnection(c2, depth-1) {
+				return true
+			}
+		}
+	}
+	return false
 }
